@@ -21,10 +21,10 @@ from fractions import Fraction as F
 import numpy as np
 
 from pvm.ref import c28_rational as R
-from pvm.checks import c30 as G   # polygon generators (hull, dented polygons, lattice planes)
+from pvm.gen import c30_polygons as G   # hull, dented polygons, lattice planes
 
 PROP = "C44"
-N = {"quick": 500, "thorough": 12000}
+N = {"quick": 500, "thorough": 6000}
 WORKERS = {"quick": 4, "thorough": 16}
 TIMEOUT = {"quick": 300, "thorough": 3000}
 RULE = ("lines: 1-8 integer segments in [-6,6]^2 against a simple integer polygon in [-4,4]^2 "
